@@ -40,14 +40,33 @@ def cell_key(prog):
     raise Unsupported("no #[thread_local] static found behind DFLT_ROUNDING_MODE (storage model unknown)")
 
 
-def mk_state(prog, cells, thread):
+def shared_statics(prog):
+    """plain (process-wide) statics of the crates: [(name, value domain)] -- only Atomic<bool> / AtomicBool are enumerated"""
+    out = []
+    for f in prog.funcs:
+        if f.kind == "static" and "__RUST_STD_INTERNAL" not in f.name:
+            ty = norm(f.ret)
+            if ty in ("Atomic<bool>", "AtomicBool"):
+                out.append((f.name, (False, True)))
+            else:
+                raise Unsupported("shared static %s of type %s is not modelled" % (f.name, ty))
+    return out
+
+
+def mk_state(prog, cells, thread, shared=()):
     st = State()
     name = cell_key(prog)
     for t, v in enumerate(cells):
         if v != UNINIT:
             st.heap[("tlcell", name, t)] = EnumV("RoundingMode", v)
+    for (sname, val) in shared:
+        st.heap[("static", sname)] = val
     st.tags["thread"] = thread
     return st, name
+
+
+def read_shared(st, statics):
+    return tuple((n, st.heap.get(("static", n))) for n, _ in statics)
 
 
 def read_cells(st, name):
@@ -71,10 +90,12 @@ def run_case(ctx, case):
         t = case["thread"]
         eff = lambda v: 5 if v == UNINIT else v       # effective mode of a thread
         n = 0
-        for cells in itertools.product(range(9), repeat=3):
+        statics = shared_statics(prog)
+        shared_vals = list(itertools.product(*[[(n, v) for v in dom] for n, dom in statics])) if statics else [()]
+        for cells, shared in itertools.product(itertools.product(range(9), repeat=3), shared_vals):
             # action set(m)
             for m in range(8):
-                st, name = mk_state(prog, cells, t)
+                st, name = mk_state(prog, cells, t, shared)
                 ex = new_executor(ctx, prog)
                 outs = ex.explore(start_state(f_set, [EnumV("RoundingMode", m)], None, st))
                 res.d["paths"] += len(outs)
@@ -87,7 +108,7 @@ def run_case(ctx, case):
                 _count(res, "step|t=%d|cells=%s|set(%d)" % (t, cells, m), ok, {"cells": list(cells), "thread": t, "action": "s%d" % m}, n < 2)
                 n += 1
             # action get
-            st, name = mk_state(prog, cells, t)
+            st, name = mk_state(prog, cells, t, shared)
             ex = new_executor(ctx, prog)
             outs = ex.explore(start_state(f_get, [], None, st))
             res.d["paths"] += len(outs)
@@ -103,11 +124,13 @@ def run_case(ctx, case):
         return res.done()
     if kind == "rq":
         rq = get_fn(prog, "round_quot", ["i128", "u128", "u128", "Option<RoundingMode>"])
-        for m in range(8):
+        statics = shared_statics(prog)
+        shared_vals = list(itertools.product(*[[(n, v) for v in dom] for n, dom in statics])) if statics else [()]
+        for m, shared in itertools.product(range(8), shared_vals):
             for cells_t in (UNINIT, m):
                 if cells_t == UNINIT and m != 5:
                     continue
-                st, name = mk_state(prog, (cells_t, (m + 1) % 8, (m + 3) % 8), 0)
+                st, name = mk_state(prog, (cells_t, (m + 1) % 8, (m + 3) % 8), 0, shared)
                 q = sym_int("q", "i128", st)
                 r = sym_int("r", "u128", st)
                 d = sym_int("d", "u128", st, lo=1)
@@ -133,7 +156,8 @@ def run_case(ctx, case):
                                 goal = (va.variant == vb.variant) and (va.variant == 0 or T.B(T.eq(va.fields[0].t, vb.fields[0].t)))
                             else:
                                 goal = T.B(T.eq(va.t, vb.t))
-                        res.vc(ctx, name_, ob.state.constraints(), goal, {"q": q.t, "r": r.t, "d": d.t}, {"kind": "rq", "mode": m})
+                        res.vc(ctx, name_, ob.state.constraints(), goal, {"q": q.t, "r": r.t, "d": d.t},
+                               {"kind": "rq", "mode": m, "cell0": cells_t, "shared": [[n, v] for n, v in shared]})
         return res.done()
     if kind == "callsites":
         # every call of a rounding kernel from the crate fpdec must pass Option::<RoundingMode>::None
@@ -236,8 +260,56 @@ def replay(ctx, native, v):
     if info.get("kind") == "callsite":
         return {"reproduced": True, "line": "(structural) " + info["fn"], "observed": info["call"], "expected": "mode argument Option::None"}
     if info.get("kind") == "rq":
-        return {"reproduced": False, "line": "", "observed": "round_quot is private", "expected": ""}
+        # the abstract pre-state (thread 0's cell, shared statics) must be reachable: search a schedule in the model, then
+        # run it on real threads followed by rounding operations on thread 0 and compare with the per-thread prediction
+        sched = find_schedule(ctx, info["cell0"], {n: v for n, v in info["shared"]})
+        if sched is None:
+            return {"reproduced": False, "line": "", "observed": "abstract pre-state not reachable within 3 steps: invariant too weak, not a finding", "expected": ""}
+        sched = sched + ["0r15", "0r25", "0r-15", "0r11", "0r-25", "0r5"]
+        line = "5 sched " + " ".join(sched)
+        obs = native["dev"].ask(line)
+        exp = predict(sched)
+        return {"reproduced": obs != exp, "line": line, "observed": obs, "expected": exp, "profile": "dev"}
     return {"reproduced": False, "line": "", "observed": "?", "expected": ""}
+
+
+def find_schedule(ctx, cell0, shared_target, depth=3):
+    """breadth-first search over the MIR-derived model: a sequence of set_default calls reaching an abstract state with the
+    given cell of thread 0 and the given values of the shared statics"""
+    prog = ctx.program("dev")
+    f_set = [f for f in prog.by_last.get("set_default", []) if [norm(p[1]) for p in f.params] == ["RoundingMode"]][0]
+    statics = shared_statics(prog)
+    init_shared = []
+    for n, dom in statics:
+        init_shared.append((n, None))
+    start = ((UNINIT, UNINIT, UNINIT), tuple(init_shared))
+    frontier = [(start, [])]
+    seen = {start}
+
+    def hit(state):
+        cells, shared = state
+        c_ok = (cells[0] == cell0) or (cell0 == UNINIT and cells[0] == UNINIT)
+        s_ok = all(dict(shared).get(n) == v or (dict(shared).get(n) is None and v is False) for n, v in shared_target.items())
+        return c_ok and s_ok
+    for _ in range(depth + 1):
+        nxt = []
+        for state, path in frontier:
+            if hit(state):
+                return path
+            cells, shared = state
+            for t in range(3):
+                for m in range(8):
+                    st, name = mk_state(prog, cells, t, tuple((n, v) for n, v in shared if v is not None))
+                    ex = new_executor(ctx, prog)
+                    outs = ex.explore(start_state(f_set, [EnumV("RoundingMode", m)], None, st))
+                    if len(outs) != 1 or outs[0].kind != "return":
+                        continue
+                    ns = (tuple(read_cells(outs[0].state, name)), read_shared(outs[0].state, statics))
+                    if ns not in seen:
+                        seen.add(ns)
+                        nxt.append((ns, path + ["%ds%d" % (t, m)]))
+        frontier = nxt
+    return None
 
 
 def confirm_known(ctx, native, ent):
